@@ -1,14 +1,27 @@
-;; Core sorts shared by specs and models.
+;; Core sorts and symbols shared by specs and models. A chunk (text between blank lines) is included in a
+;; query when one of the symbols it declares is used; axioms live in the chunk of the symbol they define.
+
 ;; BSeq: byte strings as values (arguments of uninterpreted crypto / codec primitives).
 (declare-sort BSeq 0)
 
-(declare-fun bseq.of ((Array (_ BitVec 64) (_ BitVec 8)) (_ BitVec 64) (_ BitVec 64)) BSeq)
-
 (declare-fun bseq.len (BSeq) (_ BitVec 64))
+(assert (forall ((s BSeq)) (! (bvsge (bseq.len s) #x0000000000000000) :pattern ((bseq.len s)))))
 
 (declare-fun bseq.at (BSeq (_ BitVec 64)) (_ BitVec 8))
 
-;; hash objects: digest size of the hash object at a reference, and of a constructor function value
+;; sequences built from memory: length and elements (extensional reading of BSeq)
+(declare-fun bseq.of ((Array (_ BitVec 64) (_ BitVec 8)) (_ BitVec 64) (_ BitVec 64)) BSeq)
+(assert (forall ((a (Array (_ BitVec 64) (_ BitVec 8))) (o (_ BitVec 64)) (n (_ BitVec 64)))
+  (! (=> (bvsge n #x0000000000000000) (= (bseq.len (bseq.of a o n)) n)) :pattern ((bseq.of a o n)))))
+(assert (forall ((a (Array (_ BitVec 64) (_ BitVec 8))) (o (_ BitVec 64)) (n (_ BitVec 64)) (i (_ BitVec 64)))
+  (! (=> (and (bvsle #x0000000000000000 i) (bvslt i n)) (= (bseq.at (bseq.of a o n) i) (select a (bvadd o i))))
+     :pattern ((bseq.at (bseq.of a o n) i)))))
+
+(define-fun seqlen ((s BSeq)) (_ BitVec 64) (bseq.len s))
+
+(define-fun seqat ((s BSeq) (i (_ BitVec 64))) (_ BitVec 8) (bseq.at s i))
+
+;; hash objects: digest size of the hash object at a reference
 (declare-fun hsize (Int) (_ BitVec 64))
 
 ;; digest sizes of the hash constructors (FIPS 180-4, RFC 1321, RFC 1320)
@@ -20,17 +33,72 @@
   (ite (= f fid.golang.org.x.crypto.md4.New) #x0000000000000010
   #x0000000000000000))))))
 
-;; substring relation shared by the models of strings.Contains / Split / SplitN / Index
+;; substring relation shared by the models of strings.Contains / Split / SplitN
 (declare-fun str_contains (Str Str) Bool)
 
-;; sequences built from memory: length and elements (extensional reading of BSeq)
-(assert (forall ((a (Array (_ BitVec 64) (_ BitVec 8))) (o (_ BitVec 64)) (n (_ BitVec 64)))
-  (! (=> (bvsge n #x0000000000000000) (= (bseq.len (bseq.of a o n)) n)) :pattern ((bseq.of a o n)))))
+;; ---- constructors on byte sequences (defined pointwise; used by the RFC compositions) ----
+(declare-const seqempty BSeq)
+(assert (= (bseq.len seqempty) #x0000000000000000))
 
-(assert (forall ((a (Array (_ BitVec 64) (_ BitVec 8))) (o (_ BitVec 64)) (n (_ BitVec 64)) (i (_ BitVec 64)))
-  (! (=> (and (bvsle #x0000000000000000 i) (bvslt i n)) (= (bseq.at (bseq.of a o n) i) (select a (bvadd o i))))
-     :pattern ((bseq.at (bseq.of a o n) i)))))
+(declare-fun seqcat (BSeq BSeq) BSeq)
+(assert (forall ((a BSeq) (b BSeq)) (! (= (bseq.len (seqcat a b)) (bvadd (bseq.len a) (bseq.len b))) :pattern ((seqcat a b)))))
+(assert (forall ((a BSeq) (b BSeq) (i (_ BitVec 64)))
+  (! (= (bseq.at (seqcat a b) i) (ite (bvslt i (bseq.len a)) (bseq.at a i) (bseq.at b (bvsub i (bseq.len a)))))
+     :pattern ((bseq.at (seqcat a b) i)))))
 
-(define-fun seqlen ((s BSeq)) (_ BitVec 64) (bseq.len s))
+;; first n bytes
+(declare-fun seqtrunc (BSeq (_ BitVec 64)) BSeq)
+(assert (forall ((s BSeq) (n (_ BitVec 64)))
+  (! (=> (and (bvsle #x0000000000000000 n) (bvsle n (bseq.len s))) (= (bseq.len (seqtrunc s n)) n)) :pattern ((seqtrunc s n)))))
+(assert (forall ((s BSeq) (n (_ BitVec 64)) (i (_ BitVec 64)))
+  (! (= (bseq.at (seqtrunc s n) i) (bseq.at s i)) :pattern ((bseq.at (seqtrunc s n) i)))))
 
-(define-fun seqat ((s BSeq) (i (_ BitVec 64))) (_ BitVec 8) (bseq.at s i))
+;; bytes [i, j)
+(declare-fun seqsub (BSeq (_ BitVec 64) (_ BitVec 64)) BSeq)
+(assert (forall ((s BSeq) (i (_ BitVec 64)) (j (_ BitVec 64)))
+  (! (=> (and (bvsle #x0000000000000000 i) (bvsle i j) (bvsle j (bseq.len s))) (= (bseq.len (seqsub s i j)) (bvsub j i))) :pattern ((seqsub s i j)))))
+(assert (forall ((s BSeq) (i (_ BitVec 64)) (j (_ BitVec 64)) (k (_ BitVec 64)))
+  (! (= (bseq.at (seqsub s i j) k) (bseq.at s (bvadd i k))) :pattern ((bseq.at (seqsub s i j) k)))))
+
+(declare-fun seqzeros ((_ BitVec 64)) BSeq)
+(assert (forall ((n (_ BitVec 64))) (! (=> (bvsle #x0000000000000000 n) (= (bseq.len (seqzeros n)) n)) :pattern ((seqzeros n)))))
+(assert (forall ((n (_ BitVec 64)) (i (_ BitVec 64))) (! (= (bseq.at (seqzeros n) i) #x00) :pattern ((bseq.at (seqzeros n) i)))))
+
+(declare-fun seqbyte ((_ BitVec 8)) BSeq)
+(assert (forall ((b (_ BitVec 8))) (! (and (= (bseq.len (seqbyte b)) #x0000000000000001) (= (bseq.at (seqbyte b) #x0000000000000000) b)) :pattern ((seqbyte b)))))
+
+;; 32-bit big-endian / little-endian encodings
+(declare-fun seqbe32 ((_ BitVec 32)) BSeq)
+(assert (forall ((x (_ BitVec 32))) (! (and (= (bseq.len (seqbe32 x)) #x0000000000000004)
+  (= (bseq.at (seqbe32 x) #x0000000000000000) ((_ extract 31 24) x)) (= (bseq.at (seqbe32 x) #x0000000000000001) ((_ extract 23 16) x))
+  (= (bseq.at (seqbe32 x) #x0000000000000002) ((_ extract 15 8) x)) (= (bseq.at (seqbe32 x) #x0000000000000003) ((_ extract 7 0) x))) :pattern ((seqbe32 x)))))
+
+(declare-fun seqle32 ((_ BitVec 32)) BSeq)
+(assert (forall ((x (_ BitVec 32))) (! (and (= (bseq.len (seqle32 x)) #x0000000000000004)
+  (= (bseq.at (seqle32 x) #x0000000000000000) ((_ extract 7 0) x)) (= (bseq.at (seqle32 x) #x0000000000000001) ((_ extract 15 8) x))
+  (= (bseq.at (seqle32 x) #x0000000000000002) ((_ extract 23 16) x)) (= (bseq.at (seqle32 x) #x0000000000000003) ((_ extract 31 24) x))) :pattern ((seqle32 x)))))
+
+;; ---- uninterpreted cryptographic primitives (that they are HMAC / MD5 / AES ... is not gokrb5 code) ----
+(declare-fun hmac (Int BSeq BSeq) BSeq)
+(assert (forall ((f Int) (k BSeq) (d BSeq)) (! (= (bseq.len (hmac f k d)) (hashsize f)) :pattern ((hmac f k d)))))
+
+(declare-fun hashf (Int BSeq) BSeq)
+(assert (forall ((f Int) (d BSeq)) (! (= (bseq.len (hashf f d)) (hashsize f)) :pattern ((hashf f d)))))
+
+;; small memory sequences as constructors (valid pointwise): one byte, four bytes big-/little-endian, empty
+;; include-with: bseq.of
+(declare-fun seqnorm () Bool)
+(assert (forall ((a (Array (_ BitVec 64) (_ BitVec 8))) (o (_ BitVec 64)))
+  (! (= (bseq.of a o #x0000000000000001) (seqbyte (select a o))) :pattern ((bseq.of a o #x0000000000000001)))))
+(assert (forall ((a (Array (_ BitVec 64) (_ BitVec 8))) (o (_ BitVec 64)))
+  (! (= (bseq.of a o #x0000000000000004)
+        (seqbe32 (concat (select a o) (concat (select a (bvadd o #x0000000000000001)) (concat (select a (bvadd o #x0000000000000002)) (select a (bvadd o #x0000000000000003)))))))
+     :pattern ((bseq.of a o #x0000000000000004)))))
+(assert (forall ((a (Array (_ BitVec 64) (_ BitVec 8))) (o (_ BitVec 64)))
+  (! (= (bseq.of a o #x0000000000000004)
+        (seqle32 (concat (select a (bvadd o #x0000000000000003)) (concat (select a (bvadd o #x0000000000000002)) (concat (select a (bvadd o #x0000000000000001)) (select a o))))))
+     :pattern ((bseq.of a o #x0000000000000004)))))
+(assert (forall ((a (Array (_ BitVec 64) (_ BitVec 8))) (o (_ BitVec 64)))
+  (! (= (bseq.of a o #x0000000000000000) seqempty) :pattern ((bseq.of a o #x0000000000000000)))))
+(assert (forall ((x BSeq)) (! (= (seqcat x seqempty) x) :pattern ((seqcat x seqempty)))))
+(assert (forall ((x BSeq)) (! (= (seqcat seqempty x) x) :pattern ((seqcat seqempty x)))))
